@@ -12,13 +12,13 @@ const P = "C08"
 
 func main() {
 	r := evid.New(P, "exploration")
-	r.Rule("random histories of committed operations (next, extend, new / rename / xpub account, custom scope, imports, mark-used, set-synced-to, passphrase change, lock/unlock, cache invalidation) mixed with ROLLED-BACK transactions of three kinds around address-issuing calls (callback returns an error after issuing = dry-run shape; injected write fault; injected commit failure). After EVERY operation the database file is copied, a fresh manager is opened on the copy (unlocked iff the running one is) and both answer the same query battery: every issued address (found, account, internal, imported, compressed, type, public key, derivation info, used flag, address->account), every account (properties incl. key counts and account public key, name, last external/internal address), LastAccount, ForEachAccount, LookupAccount of every name ever used, active addresses, SyncedTo, BlockHash over the stored window, watch-only flag. After a rolled-back transaction the battery must be unchanged and the restart comparison must still hold; the next committed issuing request is judged against the independent derivation oracle for the committed index. Non-trivial = history with at least one rolled-back transaction; distinct = distinct op-kind sequences.")
+	r.Rule("random histories of committed operations (next, extend, new / rename / xpub account, custom scope, imports, mark-used, set-synced-to (connecting and NON-connecting blocks, the latter must be refused), passphrase change, lock/unlock, cache invalidation) mixed with ROLLED-BACK transactions of three kinds around address-issuing calls (callback returns an error after issuing = dry-run shape; injected write fault; injected commit failure). After EVERY operation the database file is copied, a fresh manager is opened on the copy (unlocked iff the running one is) and both answer the same query battery: every issued address (found, account, internal, imported, compressed, type, public key, derivation info, used flag, address->account), every account (properties incl. key counts and account public key, name, last external/internal address), LastAccount, ForEachAccount, LookupAccount of every name ever used, active addresses, SyncedTo, BlockHash over the stored window, watch-only flag. After a rolled-back transaction the battery must be unchanged and the restart comparison must still hold; the next committed issuing request is judged against the independent derivation oracle for the committed index. Non-trivial = history with at least one rolled-back transaction; distinct = distinct op-kind sequences.")
 	r.Trusted("walletdb.DB.Copy (bbolt tx.WriteTo) yields a consistent image")
 	r.Assume("rolled-back transactions contain issuing calls only (DESIGN O-7)", "lookups of addresses that only a rolled-back transaction produced are not compared (O-4)", "Birthday() is not in the battery (O-5)")
 	dir, _ := os.MkdirTemp("", "c08")
 	defer os.RemoveAll(dir)
 	wt := mgr.DefaultWeights
-	wt.Next, wt.Rename, wt.MarkUsed, wt.SyncedTo, wt.Invalidate = 24, 5, 7, 6, 6
+	wt.Next, wt.Rename, wt.MarkUsed, wt.SyncedTo, wt.Invalidate, wt.SyncedToGap = 24, 5, 7, 6, 6, 3
 	cfg := mgr.Config{Weights: wt, MinSteps: 15, MaxSteps: r.N(50, 80), C08: true, Rollbacks: true}
 	r.Parallel("history", r.N(60, 1500), evid.Workers(), func(i int, cs int64) {
 		res := mgr.RunHistory(cfg, cs, dir)
